@@ -4,7 +4,8 @@ Layer R: generated schemas -> real sbeppc -> per-schema driver (vlib/c06gen.py,
 harness/c06_driver.hpp) calling sbepp::size_bytes_checked on a guard buffer of
 EXACTLY n bytes, in a release-style build (SBEPP_DISABLE_ASSERTS: `v,s`, FAULT,
 UB, TIMEOUT + exact callback count) and a checked build
-(SBEPP_ENABLE_ASSERTS_WITH_HANDLER: ASSERT).  For every message shape and every
+(SBEPP_ENABLE_ASSERTS_WITH_HANDLER: ASSERT; since /repo 7262f97 every access the
+release model logs beyond n must end in the assertion handler there).  For every message shape and every
 well-formed image: every truncation point, a few sizes beyond, and overwrites of
 every blockLength / numInGroup / length value with 0, max, fitting-1, fitting,
 fitting+1 (plus blockLength=0 together with numInGroup=max); the same truncation
@@ -191,7 +192,7 @@ class Req:
 # per-image request budgets: images of the strengthened generator reach several KB; small images (the majority) still
 # get EVERY truncation point and EVERY header value, large ones a deterministic selection centred on the header values
 BUDGET = {'quick': {'points': 160, 'marks': 24, 'group_points': 64, 'groups': 3},
-          'thorough': {'points': 700, 'marks': 150, 'group_points': 220, 'groups': 8}}
+          'thorough': {'points': 400, 'marks': 80, 'group_points': 120, 'groups': 6}}
 
 
 def pick_points(ln, interesting, budget, beyond):
@@ -405,7 +406,11 @@ def correspond(chk, run, variants, values_per_msg):
                 reqs += requests_for_image(c, m, bo, img, marks, tops, BUDGET[chk.tier], rng)
     chk.log('requests: %d' % len(reqs))
     # model + spec
-    mouts = run.model_lines([r.model_line() for r in reqs])
+    mlines = [r.model_line() for r in reqs]
+    chunk = max(1, (len(mlines) + core.NPROC - 1) // core.NPROC)
+    with cf.ThreadPoolExecutor(core.NPROC) as ex:
+        parts = list(ex.map(run.model_lines, [mlines[i:i + chunk] for i in range(0, len(mlines), chunk)]))
+    mouts = [o for part in parts for o in part]
     chk.log('model answered')
     good = []
     for r, mo in zip(reqs, mouts):
@@ -512,10 +517,12 @@ def run(chk):
     W.finish_cov(chk, run, 'one evaluation = one call of the real sbepp::size_bytes_checked (message or group view of '
                  'real sbeppc output for a generated schema) on a guard-page buffer of exactly n bytes under one build '
                  'configuration, compared with the specification (verdict, size, no fault, callbacks <= wmax*(n+2)) and '
-                 'with the model (verdict, size, fault, exact callback count); inputs: every truncation point of a '
-                 'well-formed image, sizes beyond it, every blockLength/numInGroup/length overwritten with '
-                 '0/max/fit-1/fit/fit+1, blockLength=0 with numInGroup=max; distinct = distinct (schema, message, view, '
-                 'n, bytes)')
+                 'with the model (verdict, size, fault, exact callback count; checked build: ASSERT whenever the release '
+                 'model reads beyond n); inputs: every truncation point of a well-formed image, sizes beyond it, every '
+                 'blockLength/numInGroup/length overwritten with 0/max/fit-1/fit/fit+1, blockLength=0 with '
+                 'numInGroup=max - all of them for images within the per-image budget (%s), for larger images the '
+                 'start, the end, the neighbourhood of every header value and an even stride, and a seeded sample of '
+                 'the header values; distinct = distinct (schema, message, view, n, bytes)' % BUDGET[chk.tier])
     chk.cov['configurations'] = ['%s -std=%s %s' % (c, s, ' '.join(c06gen.VARIANTS[v])) for (c, s, v) in variants]
     if chk.failed_obligations and not chk.violations:
         chk.report_unproved('theorem', chk.failed_obligations)
@@ -523,7 +530,9 @@ def run(chk):
         'Rt.Checked is a hand transliteration of size_bytes_checked_visitor, the generated visit_children and the '
         'cursor accessors; only validate_and_subtract is tied to the source by extraction (vas_eq_extracted); the rest '
         'is tied by this differential check (result, fault and exact callback count per request)',
-        'the model is of builds without SBEPP_SIZE_CHECK; checked builds are only observed (ASSERT / result)',
+        'the model is of builds without SBEPP_SIZE_CHECK; checked builds are observed: never FAULT, a verdict equal to the '
+        'specification or ASSERT, and ASSERT (or UB/TIMEOUT) whenever the release model logs a read beyond n',
+        'images above the per-image budget get a selection of truncation points and header values, not all of them',
         'pointers are unbounded offsets in the model: forming an out-of-range pointer (cursor advanced by an '
         'unvalidated length) is not flagged unless UBSan traps in the implementation',
         'messages whose data header composite is not (length, varData) at offset 0, or whose block length does not '
